@@ -43,6 +43,10 @@ def plan(tier):
     add("e-only-k4-core", K=4, firmware=0, kinds="r", roles="RET,REC,PRINT,TRAVEL,TRAVELE")
     add("e-only-k4-spelling", K=4, firmware=0, kinds="r", roles="PRINTDOT,TRAVEL,RET,REC")
     add("owed-cycle-k7", firmware=0, kinds="r", sequence="RET,TRAVEL,REC,TRAVEL,RET,REC,PRINT")
+    add("disable-while-owed", firmware=0, kinds="r", sequence="RET,TRAVEL,REC,ATOFF,PRINT")
+    add("disable-while-owed-fw", firmware=1, kinds="r", sequence="FRET,TRAVEL,FREC,ATOFF,PRINT")
+    add("off-print-on-episode", firmware=0, kinds="r", sequence="ATOFF,PRINT,ATON,TRAVEL,TRAVEL,PRINT")
+    add("delete-active-region", firmware=0, kinds="r", sequence="PRINT,DELREGION,PRINT")
     add("firmware-k4", K=4, firmware=1, kinds="r", roles="FRET,FREC,FRET1,FREC1,PRINT,TRAVEL")
     for start in ("outside", "inside"):
         SCENARIOS["ind-" + start] = scen_ind
